@@ -90,7 +90,12 @@ CHECKS = {
          "everything delivered, blocks relayed through the block queue, earliest virtual deadline fires when nothing else can happen; Progress bound 6N "
          "rounds per block. Liveness is judged only where everybody was honest and everything was delivered since the height began (after an asynchronous "
          "period the left-over height may stall: known dBFT 2.0 commit/view split, counted as stalls_after_asynchrony, not judged). Wall-clock only "
-         "detects a dead driver (exit 2). One height per model run; recovery messages are not modelled (they are exercised on the real nodes).",
+         "detects a dead driver (exit 2). One height per model run; recovery messages are not modelled (they are exercised on the real nodes). Extension extpool: the "
+         "extensible payload pool in front of the consensus service (extpool.Pool Add/Get/GetCategory/RemoveStale): ExtPoolImpl checked exhaustively by TLC over 3 universes "
+         "with 3 named deviations; TLC behaviours and seeded random histories (12 sender classes incl. multisig and state validators, 6 bad-witness kinds, same-hash twins, "
+         "delayed RemoveStale) replayed on a real pool over a real ledger with really signed payloads, every step judged by TLC (ExtPoolTrace): nothing invalid is accepted "
+         "or served, valid payloads the pool does not hold are accepted (re-admission after eviction), held payloads are filtered; eviction order, capacity and "
+         "RemoveStale retention are drift only.",
          "TLA+ dBFT model checked by TLC; TLC (goal-directed) schedules replayed on real consensus services with virtual time; TLC trace validation"),
  "C05": ("model_checking",
          "TLC exhaustively checks that the code-shaped model Tokens.tla (transfers incl. self/zero, vote/unvote, register/unregister with drop-if-zero, mint, "
@@ -236,6 +241,22 @@ CHECKS = {
          "reproduces on a fresh database (goleveldb's OpenTransaction path occasionally loses a batch: third-party, observed, not judged). Judged concurrent "
          "predicate: NoHalfBatch / never-missing / no-stale; one open known finding (seek-half-batch).",
          "two-level TLA+ spec; TLC exhaustive Impl=>Abstract; counterexamples and simulations replayed on real stores; gated schedule replay; TLC trace judging"),
+ "C12": ("model_checking",
+         "VMRef.tla transcribes pkg/vm/ref_counter.go exactly and has one action per collection instruction of vm.go (incl. struct cloning, slots, CALL/RET, TRY/THROW "
+         "unloading); TLC exhaustively checks it against the counting clauses of VMLimits (counter >= walk always; counter = walk while no cycle was ever built; each "
+         "item's own counter exact while acyclic) for 2-3 compound items x 1-2 elements, 2-3 stack cells, 1 static cell, 2 frames. Every transition of the quick state "
+         "graphs (transition cover printed by TLC) is replayed on the real VM with round-robin opcode encodings; TLC simulation behaviours over larger heaps, TLC "
+         "counterexamples, seeded random byte strings / opcode streams / mutants / well-typed 'go deep' programs, scripts walking up to each limit (2048 items in 11 ways, "
+         "+-2^255, maximum item size, 1024 invocations, 16 try blocks) and near misses of the static script check are added, each under a generous and a tight gas "
+         "limit. An observation is recorded before every executed instruction (opcode, offset, VerifRefs() hook, the harness's OWN walk of all stacks and slots, cycle "
+         "detection, depths, gas) and TLC (VMTrace) evaluates all 12 clauses on every observation: HALT/FAULT only and no panic, gas <= limit, items/counter <= 2048, "
+         "int <= 256 bits, item size, invocation depth, try depth, no under-count, exact when acyclic, executed offsets on instruction boundaries for statically accepted "
+         "scripts.",
+         "DESIGN.md section 4 C12",
+         "Trusted: TLC; the harness's own walk and opcode-length table; a reflect read of Context.tryStack; the VerifRefs hook. Driven as vm.New + LoadWithFlags + "
+         "SetGasLimit + Run with fee.Opcode prices; no syscall handler, so only CALL/CALLA contexts exist. A FAULT's leftover state is not judged. 'Cycle built' means a "
+         "cycle among items reachable before or after an instruction.",
+         "TLA+ refcount model checked by TLC; TLC-printed transition cover + simulation + counterexamples replayed on the real VM; TLC trace validation of per-instruction observations"),
 }
 
 NOT_YET = {}   # id -> reason (properties not (yet) claimed)
